@@ -14,7 +14,9 @@ AMS, NYC = zoneinfo.ZoneInfo("Europe/Amsterdam"), zoneinfo.ZoneInfo("America/New
 CONCRETE = {"fold=0 Amsterdam": datetime.datetime(2021, 10, 31, 2, 30, tzinfo=AMS, fold=0), "fold=1 Amsterdam": datetime.datetime(2021, 10, 31, 2, 30, tzinfo=AMS, fold=1), "gap New York": datetime.datetime(2021, 3, 14, 2, 30, tzinfo=NYC),
             "gap fold=1 New York": datetime.datetime(2021, 3, 14, 2, 30, tzinfo=NYC, fold=1), "1969": datetime.datetime(1969, 12, 31, 23, 59, 59, 999999, tzinfo=UTC), "year 1": datetime.datetime(1, 1, 1, tzinfo=UTC),
             "year 9999": datetime.datetime(9999, 12, 31, 23, 59, 59, 999999, tzinfo=UTC), "year 1 +05:00": datetime.datetime(1, 1, 1, 3, tzinfo=datetime.timezone(TD(hours=5))), "year 9999 -05:00": datetime.datetime(9999, 12, 31, 22, tzinfo=datetime.timezone(TD(hours=-5))),
-            "naive": datetime.datetime(2020, 2, 29, 12, 0, 0, 1), "summer Amsterdam": datetime.datetime(2021, 7, 1, 12, 0, tzinfo=AMS)}
+            "naive": datetime.datetime(2020, 2, 29, 12, 0, 0, 1), "summer Amsterdam": datetime.datetime(2021, 7, 1, 12, 0, tzinfo=AMS),
+            "offset +05:30:15": datetime.datetime(2020, 1, 2, 12, 30, 15, 123456, tzinfo=datetime.timezone(TD(hours=5, minutes=30, seconds=15))), "offset -00:00:31": datetime.datetime(1969, 12, 31, 23, 59, 59, 5, tzinfo=datetime.timezone(-TD(seconds=31))),
+            "Amsterdam local mean time 1900 (+00:19:32)": datetime.datetime(1900, 1, 1, 0, 0, 0, tzinfo=AMS), "offset with microseconds": datetime.datetime(2001, 2, 3, 4, 5, 6, 7, tzinfo=datetime.timezone(TD(hours=1, microseconds=500)))}
 
 
 def wall(d):
